@@ -301,10 +301,15 @@ def rand_offset(rng, lo=MARGIN * 2, hi=1.0):
 def comb(a, b, t):
     """integer direction exactly in the plane of a, b at (about) the angle t from a towards b"""
     L = _angle(a, b)
+    # bring both vectors to comparable length first (positive integer factors keep the directions)
+    na, nb = isqrt(nsq(a)), isqrt(nsq(b))
+    ka, kb = max(1, nb // max(na, 1)), max(1, na // max(nb, 1))
+    a, b = tuple(ka * x for x in a), tuple(kb * x for x in b)
     al, be = math.sin(L - t) / math.sin(L), math.sin(t) / math.sin(L)
     al, be = al / fnorm(a), be / fnorm(b)
     m = max(abs(al), abs(be))
-    ai, bi = int(round(al / m * LAT)), int(round(be / m * LAT))
+    S = 1 << 40
+    ai, bi = int(round(al / m * S)), int(round(be / m * S))
     return reduce((ai * a[0] + bi * b[0], ai * a[1] + bi * b[1], ai * a[2] + bi * b[2]))
 
 
@@ -345,6 +350,8 @@ def rand_u(rng):
 
 
 def gen_pwg(rng, fam):
+    if fam in NEAR_FAMS:
+        return gen_pwg_near(rng, fam)
     L = rand_len(rng)
     c = {"fn": "pwg", "family": fam}
     if fam in ("generic", "seam"):
@@ -443,6 +450,10 @@ GCA_LAT = 1 << 24
 
 
 def gen_gca(rng, fam):
+    if fam in NEAR_FAMS:
+        return gen_gca_near(rng, fam)
+    if fam in ("short_pair", "shallow"):
+        return gen_gca_small(rng, fam)
     kind = rng.choice(["cross", "cross", "cross", "miss1", "miss2", "missboth", "anti"])
     c1 = kind in ("cross", "miss2", "anti")
     c2 = True if kind in ("cross", "miss1") else ("anti" if kind == "anti" else False)
@@ -500,6 +511,144 @@ def gen_gca(rng, fam):
         a, b, c, d = c, d, a, b
     out.update(a=a, b=b, c=c, d=d)
     return out
+
+
+# ---------------------------------------------------------------------------------------------
+# neighbours of the special cases: every special-case branch of the predicates (same longitude, longitudes pi apart,
+# endpoint / point at a pole, z = 0, parallel great circles) gets inputs just outside its tolerance window, i.e. arcs
+# that are ALMOST meridional / through a pole / equatorial, and pairs of short or nearly parallel arcs
+
+BIG = 1 << 62
+
+
+def zrot_small(v, delta):
+    """the direction v rotated about the polar axis by the tiny angle delta (exact integer direction, tan(angle) = k/2^62)"""
+    k = int(round(delta * BIG)) or 1
+    return reduce((v[0] * BIG - k * v[1], v[1] * BIG + k * v[0], v[2] * BIG))
+
+
+def tiny(rng, lo=1e-15, hi=1e-6):
+    return 10 ** rng.uniform(math.log10(lo), math.log10(hi)) * rng.choice([1, -1])
+
+
+def float_comb_offplane(a, b, t, d):
+    """float-built direction at angle t from a towards b, lifted off the plane by d, on the fine lattice"""
+    fa, fb = np.array(unitf(a)), np.array(unitf(b))
+    n = np.cross(fa, fb)
+    n = n / np.linalg.norm(n)
+    e2 = np.cross(n, fa)
+    v = (math.cos(t) * fa + math.sin(t) * e2) * math.cos(d) + math.sin(d) * n
+    return reduce(lattice(tuple(float(x) for x in v), 1 << 40))
+
+
+def near_special_arc(rng, fam):
+    """endpoints of an arc next to a special case"""
+    u = rand_u(rng)
+    if fam == "near_meridian":          # endpoint longitudes differ by 5e-15 .. 1e-6 rad: just outside the window
+        # |dlon| <= MACHINE_EPSILON * (1 + lon) <= 1.6e-15 of the same-longitude test (inside it the outcome is rounding noise)
+        L = rng.uniform(0.05, 1.2)
+        start = rng.uniform(-math.pi / 2 + 0.05, math.pi / 2 - 0.05 - L)
+        a, b = merid_pt(u, start), zrot_small(merid_pt(u, start + L), tiny(rng, 5e-15, 1e-6))
+    elif fam == "near_through_pole":    # endpoint longitudes differ by pi -/+ (1e-15 .. 1e-6): the arc passes next to a pole
+        pole = rng.choice([math.pi / 2, -math.pi / 2])
+        before, after = rng.uniform(0.05, 1.2), rng.uniform(0.05, 1.2)
+        a, b = merid_pt(u, pole - before), zrot_small(merid_pt(u, pole + after), tiny(rng, 5e-15, 1e-5))
+    elif fam == "near_equator":         # |z| of both endpoints 1e-15 .. 1e-7
+        L = rand_len(rng)
+        t0 = rng.uniform(-math.pi, math.pi)
+        D = 1 << 60
+        def eq(t, z):
+            return reduce((int(round(D * math.cos(t))), int(round(D * math.sin(t))), int(round(D * z)) or 1))
+        a, b = eq(t0, tiny(rng, 1e-15, 1e-7)), eq(t0 + L, tiny(rng, 1e-15, 1e-7))
+    else:                               # near_pole_endpoint: an endpoint 2e-4 .. 1e-2 rad from a pole (just outside the snap zone)
+        pole = rng.choice([math.pi / 2, -math.pi / 2])
+        d = 10 ** rng.uniform(math.log10(2 * SNAP), -2)
+        a = merid_pt(u, pole - d)
+        M = frot(rng, "euler")
+        fa = np.array(unitf(a))
+        L = rand_len(rng)
+        w = np.array(fpt(M, 0.0))
+        e2 = np.cross(fa, w)
+        e2 = np.cross(e2 / np.linalg.norm(e2), fa)
+        b = reduce(lattice(tuple(float(x) for x in (math.cos(L) * fa + math.sin(L) * e2)), 1 << 30))
+    if rng.random() < 0.5:
+        a, b = b, a
+    return a, b
+
+
+def gen_pwg_near(rng, fam):
+    a, b = near_special_arc(rng, fam)
+    L = _angle(a, b)
+    t, kind = query_angle(rng, L)
+    if kind == "off_plane":
+        p = float_comb_offplane(a, b, t, rand_offset(rng) * rng.choice([1, -1]))
+    else:
+        p = comb(a, b, t)
+    return {"fn": "pwg", "family": fam, "kind": kind, "a": a, "b": b, "p": p}
+
+
+def gen_gca_near(rng, fam):
+    """an ordinary arc crossing (or missing) an arc next to a special case"""
+    a, b = near_special_arc(rng, fam)
+    L = _angle(a, b)
+    kind = rng.choice(["cross", "cross", "cross", "miss1", "miss2"])
+    fa, fb = np.array(unitf(a)), np.array(unitf(b))
+    n = np.cross(fa, fb)
+    n = n / np.linalg.norm(n)
+    e2 = np.cross(n, fa)
+    m1 = min(rand_offset(rng, 2 * MARGIN, 0.3), L / 3)
+    t = rng.uniform(m1, L - m1) if kind != "miss1" else rng.choice([-m1, L + m1])
+    X = math.cos(t) * fa + math.sin(t) * e2               # node on (or beside) arc 1
+    T = -math.sin(t) * fa + math.cos(t) * e2
+    gamma = rng.uniform(0.2, math.pi - 0.2)
+    W = math.cos(gamma) * T + math.sin(gamma) * n
+    lo, hi = arc_span(rng, kind != "miss2")
+    c = reduce(lattice(tuple(float(x) for x in (math.cos(lo) * X + math.sin(lo) * W)), 1 << 40))
+    d = reduce(lattice(tuple(float(x) for x in (math.cos(hi) * X + math.sin(hi) * W)), 1 << 40))
+    if rng.random() < 0.5:
+        a, b, c, d = c, d, a, b
+    return {"fn": "gca", "family": fam, "kind": kind, "gamma": gamma, "a": a, "b": b, "c": c, "d": d}
+
+
+def gen_gca_small(rng, fam):
+    """short_pair: both arcs 4e-6 .. 1e-3 rad long, generic crossing angle; shallow: arcs 1e-3 .. 0.1 rad meeting at a
+    small angle (the un-normalised (a x b) x (c x d) is tiny in both)"""
+    M = frot(rng, "euler")
+    if fam == "short_pair":
+        L1, L2 = (10 ** rng.uniform(math.log10(4e-6), -3) for _ in range(2))
+        gamma = rng.uniform(0.3, math.pi - 0.3)
+    else:
+        L1, L2 = (10 ** rng.uniform(-3, -1) for _ in range(2))
+        gamma = 10 ** rng.uniform(-7, -2) / (L1 * L2) * rng.uniform(0.5, 2)
+        gamma = min(max(gamma, 2e-5), 0.3)
+        if rng.random() < 0.5:
+            gamma = math.pi - gamma
+    kind = rng.choice(["cross", "cross", "cross", "miss1", "miss2"])
+
+    def span(L, contains):
+        if contains:
+            m = min(max(2 * MARGIN, L * rng.uniform(0.05, 0.5)), L / 2)
+            lo = -m if rng.random() < 0.5 else -(L - m)
+            return lo, lo + L
+        m = max(2 * MARGIN, L * rng.uniform(0.05, 1.0))
+        return (m, m + L) if rng.random() < 0.5 else (-m - L, -m)
+    l1, h1 = span(L1, kind != "miss1")
+    l2, h2 = span(L2, kind != "miss2")
+    S = 1 << 44
+
+    def arc2(phi):
+        v = (math.cos(phi), math.sin(phi) * math.cos(gamma), math.sin(phi) * math.sin(gamma))
+        return reduce(lattice(matvec(M, v), S))
+    a, b = reduce(lattice(fpt(M, l1), S)), reduce(lattice(fpt(M, h1), S))
+    c, d = arc2(l2), arc2(h2)
+    if rng.random() < 0.5:
+        a, b = b, a
+    if rng.random() < 0.5:
+        a, b, c, d = c, d, a, b
+    return {"fn": "gca", "family": fam, "kind": kind, "gamma": gamma, "a": a, "b": b, "c": c, "d": d}
+
+
+NEAR_FAMS = ("near_meridian", "near_through_pole", "near_equator", "near_pole_endpoint")
 
 
 def stereo(u, v, w):
@@ -622,7 +771,7 @@ def classify_gca(c):
         # where that is well below PT_TOL
         cond = 1.0 / (min(L1, L2) * math.sin(g))
         c["cond"] = cond
-        ok = ok and 4 * 1.2e-16 * cond <= PT_TOL / 10
+        ok = ok and cond <= 2.0e6       # measured error of the implementation ~ 2e-17 * cond
         if any(in_snap_zone(v) for v in (a, b, cc, d, x)):
             ok = False
     c.update(want=want, margin=margin, in_scope=bool(ok))
@@ -646,6 +795,27 @@ def gca_float_residuals(a, b, c, d):
              abs(float(I["jdot"](np.asarray(n2), np.asarray(cand))))) for cand in (x1, -x1)]
 
 
+LON_RES = 1.0e-14      # rad: float64 longitudes in [0, 2 pi) (ulp up to 8.9e-16, atan2 of rounded inputs) cannot separate less
+
+
+def lon_gap(e, p):
+    """|sin(lon p - lon e)| of two directions off the polar axis (exact up to float rounding of the quotient)"""
+    c = abs(e[0] * p[1] - e[1] * p[0])
+    return float(Fraction(c) / (norm_frac((e[0], e[1], 0)) * norm_frac((p[0], p[1], 0))))
+
+
+def lon_unresolvable(a, b, p):
+    """p is on the great circle of the arc a..b (plane not through the poles), and its longitude differs from the nearer
+    endpoint's by less than float64 longitudes can resolve: the longitude-interval logic of point_within_gca cannot tell
+    on which side of that endpoint it lies (almost meridional arcs, arcs passing next to a pole)"""
+    if cross(a, b)[2] == 0 or dot(cross(a, b), p) != 0:
+        return False
+    if any(v[0] == 0 and v[1] == 0 for v in (a, b, p)):
+        return False
+    e = a if _angle(a, p) <= _angle(b, p) else b
+    return dot((e[0], e[1], 0), (p[0], p[1], 0)) > 0 and lon_gap(e, p) <= LON_RES
+
+
 def judge_pwg(a, b, p, want, rng, mf=None):
     """-> (impl answer, None | info of the failure)"""
     r = impl_pwg(a, b, p)
@@ -664,7 +834,11 @@ def judge_pwg(a, b, p, want, rng, mf=None):
             resid = float(abs(Fraction(dot(cross(a, b), p))) / (norm_frac(cross(a, b)) * norm_frac(p)))
             if resid <= impl()["tol"]:
                 info["cause"] = "plane_test_abs_tol"
-        if want and r is False:
+        if (not want) and r is True and lon_unresolvable(a, b, p):
+            info["cause"] = "lon_unresolvable"
+        if want and r is False and lon_unresolvable(a, b, p):
+            info["cause"] = "lon_unresolvable"
+        elif want and r is False:
             if float_plane_residual(unitf(a), unitf(b), unitf(p)) > impl()["tol"]:      # the tolerance of the on-plane test
                 info["cause"] = "plane_test_eps"
             elif ulp_sensitive_pwg(a, b, p, True, rng):
@@ -710,7 +884,16 @@ def judge_gca(a, b, c, d, want, mf=None):
         info["faithful_model"] = "agrees" if (mf != "E" and points_match(r, mf)) else "differs"
     if arc in ("general", "meridian"):
         info["cause"] = "unexplained"
-        if clause == "crossing_missed":
+        if clause == "crossing_spurious" and len(want) == 0 and len(r) == 1:
+            x = cross(cross(a, b), cross(c, d))
+            cand = x if point_close(r[0], x) else (neg(x) if point_close(r[0], neg(x)) else None)
+            if cand is not None:
+                off = [(e0, e1) for (e0, e1) in ((a, b), (c, d)) if not on_arc(e0, e1, cand)]
+                if off and all(lon_unresolvable(e0, e1, cand) for (e0, e1) in off):
+                    info["cause"] = "lon_unresolvable"
+        if clause == "crossing_missed" and len(want) == 1 and any(lon_unresolvable(e0, e1, want[0]) for (e0, e1) in ((a, b), (c, d))):
+            info["cause"] = "lon_unresolvable"
+        elif clause == "crossing_missed":
             eps = impl()["tol"]      # the tolerance of the on-plane test (ERROR_TOLERANCE since f96618a0)
             for cand, r1, r2 in gca_float_residuals(a, b, c, d):
                 if point_close(list(map(float, cand)), want[0]) and (r1 > eps or r2 > eps):
@@ -924,10 +1107,12 @@ def eval_ext(ck, c, model, st, rng):
 
 # ---------------------------------------------------------------------------------------------
 
-PWG_FAMS = ["generic", "generic", "generic", "equator", "seam", "seam", "meridian", "through_pole", "pole_endpoint"]
-GCA_FAMS = ["generic", "generic", "generic", "seam", "polar", "pole_ref"]
+PWG_FAMS = ["generic", "generic", "generic", "equator", "seam", "seam", "meridian", "through_pole", "pole_endpoint",
+            "near_meridian", "near_meridian", "near_through_pole", "near_equator", "near_pole_endpoint"]
+GCA_FAMS = ["generic", "generic", "generic", "seam", "polar", "pole_ref",
+            "short_pair", "short_pair", "shallow", "near_meridian", "near_through_pole", "near_equator"]
 EXT_FAMS = ["generic", "generic", "short", "equator_sym", "meridian", "pole_endpoint", "high_lat", "long"]
-N_CASES = {"quick": (2400, 40, 1300, 700), "thorough": (60000, 400, 30000, 15000)}
+N_CASES = {"quick": (2800, 40, 1800, 600), "thorough": (70000, 400, 40000, 15000)}
 
 
 def gen_cases(ck):
